@@ -1976,3 +1976,50 @@ def check_macro_arms(ctx, rule, names):
             ctx.bad(rule, site, '%s: %s' % (arm, '; '.join(problems)), b.span)
         else:
             ctx.ok(rule, site, '%s expands to from_mats(%sM, %sv): %s' % (arm, '' if sm > 0 else '-', '' if sb > 0 else '-', what), b.span)
+
+
+# ---------------------------------------------------------------------------------------------------------------- index guards
+INDEX_PARAMS = {'row', 'axis', 'index', 'idx', 'clazz', 'class', 'neuron', 'component', 'left', 'right'}
+DIM_PARAMS = {'dim', 'dimension', 'n', 'size', 'width'}
+
+
+def check_index_guards(ctx, rule, qnames):
+    """A constructor that takes an index and a dimension may guard the pair only with `index < dim`: every index below the dimension is a
+    legal argument (a guard that fails for one of them turns a documented call into a panic), and an index equal to the dimension is not."""
+    from ..mir import strip_sites as s_
+    for q in qnames:
+        bodies = [b for b in ctx.facts.bodies if b.qname == q]
+        if not bodies:
+            ctx.lost(rule, q)
+            continue
+        for b in bodies:
+            R = Resolver(b)
+            names = b.arg_names()
+            idxs = [('param', n) for n in names if n in INDEX_PARAMS]
+            dims = [('param', n) for n in names if n in DIM_PARAMS]
+            site = q + '#index-guard'
+            if not idxs or not dims:
+                ctx.undecided(rule, site, 'no (index, dimension) parameter pair found (%s)' % ', '.join(names), b.span)
+                continue
+            bad, n = [], 0
+            for bb, e in R.return_expr():
+                for op, x, y in cmp_facts(literals(b, R, bb)):
+                    x, y = s_(x), s_(y)
+                    while x[0] == 'cast':
+                        x = x[1]
+                    while y[0] == 'cast':
+                        y = y[1]
+                    if x in idxs and y in dims:
+                        rel = op
+                    elif y in idxs and x in dims:
+                        rel = {'Lt': 'Gt', 'Gt': 'Lt', 'Le': 'Ge', 'Ge': 'Le'}.get(op, op)
+                        x, y = y, x
+                    else:
+                        continue
+                    n += 1
+                    if rel != 'Lt':
+                        bad.append('%s %s %s' % (x[1], {'Le': '<=', 'Gt': '>', 'Ge': '>=', 'Eq': '==', 'Ne': '!='}.get(rel, rel), y[1]))
+            if bad:
+                ctx.bad(rule, site, 'the result is only built under %s: the legal arguments are exactly the indices below the dimension' % ', '.join(sorted(set(bad))), b.span)
+            else:
+                ctx.ok(rule, site, 'every guard on an (index, dimension) pair is `index < dim` (%d found)' % n, b.span)
